@@ -76,7 +76,11 @@ func randAddr(r *vrng, v6 bool) *net.TCPAddr {
 		}
 		return &net.TCPAddr{IP: ip, Port: 1 + r.intn(65535)}
 	}
-	return &net.TCPAddr{IP: net.IPv4(byte(1+r.intn(223)), byte(r.intn(256)), byte(r.intn(256)), byte(1+r.intn(254))).To4(), Port: 1 + r.intn(65535)}
+	ip := net.IPv4(byte(1+r.intn(223)), byte(r.intn(256)), byte(r.intn(256)), byte(1+r.intn(254)))
+	if r.intn(2) == 0 {
+		ip = ip.To4() // the 4-byte form an IPv4 listener reports; otherwise the 16-byte form of a dual-stack listener
+	}
+	return &net.TCPAddr{IP: ip, Port: 1 + r.intn(65535)}
 }
 
 func ipTok(a *net.TCPAddr) string {
@@ -176,6 +180,36 @@ func TestVerifPP(t *testing.T) {
 				payload = append(append([]byte{}, inHdr...), payload...)
 				inHdr = nil
 			}
+		}
+		// a legal v1 header without addresses in front of an address matcher (the usual reason to deploy proxy_protocol): whatever
+		// the handler makes of the addresses, nothing may panic (the other judgements are not made for this case)
+		if r.intn(10) == 0 {
+			var routes layer4.RouteList
+			raw := fmt.Sprintf(`[{"handle":[{"handler":"proxy_protocol"},{"handler":"subroute","routes":[{"match":[{"remote_ip":{"ranges":["10.0.0.0/8"]}},{"local_ip":{"ranges":["10.0.0.0/8"]}}],"handle":[{"handler":"proxy","upstreams":[{"dial":["%s"]}]}]},{"handle":[{"handler":"proxy","upstreams":[{"dial":["%s"]}]}]}]}]}]`, sinks[0].ln.Addr(), sinks[0].ln.Addr())
+			if err := json.Unmarshal([]byte(raw), &routes); err != nil {
+				t.Fatal(err)
+			}
+			if err := routes.Provision(ctx); err != nil {
+				t.Fatalf("provision: %v", err)
+			}
+			stream := append([]byte("PROXY UNKNOWN" + []string{"", " ffff::1 ffff::2 1 2"}[r.intn(2)] + "\r\n"), payload...)
+			sc := &sconn{chunks: split(r, stream), eof: true, remote: client, local: server}
+			h := routes.Compile(zap.NewNop(), time.Hour, layer4.HandlerFunc(func(*layer4.Connection) error { return nil }))
+			cx := layer4.WrapConnection(sc, make([]byte, 0, 2048), zap.NewNop())
+			fmt.Fprintf(out.cases, "note pp v1-unknown\n")
+			out.cases.Flush()
+			func() {
+				defer func() {
+					if p := recover(); p != nil {
+						out.fail(idx, "panic:proxy_protocol-handler", fmt.Sprintf("a v1 UNKNOWN header followed by an address matcher: panic: %v", p))
+					}
+				}()
+				_ = h.Handle(cx)
+			}()
+			sinks[0].take(50 * time.Millisecond)
+			fmt.Fprintln(out.out, "unknown")
+			stats["v1-unknown"]++
+			continue
 		}
 		var dial []string
 		for i := 0; i < npeers; i++ {
